@@ -137,7 +137,7 @@ def evaluate(name, tier="quick"):
     finally:
         rm_worktree(wt)
     # evidence/replays written by this run belong to the patched tree: restore evidence from git
-    sh(f"git -C {VERIF} checkout -- evidence/{pid}.json")
+    sh(f"git -C {VERIF} checkout -- evidence/{pid}.json lean/RedunModel/Generated")
 
 
 if __name__ == "__main__":
